@@ -112,8 +112,7 @@ class CodecModel:
         if b:
             for bl in b["blocks"]:
                 for s in bl["stmts"]:
-                    if s["k"] == "assign" and s["rv"]["k"] == "aggregate" and s["rv"]["ak"] == "array" \
-                            and s["rv"].get("elem") == self.ty:
+                    if s["k"] == "assign" and s["rv"]["k"] == "aggregate" and s["rv"]["ak"] == "array":
                         # evaluate the operands in a throw-away frame
                         items = s["rv"]
             if items is not None:
@@ -131,6 +130,18 @@ class CodecModel:
                         for t in terms.walk(p.ret):
                             if t[0] == "array":
                                 elems = t[1]
+                # the list may also be an array of raw values mapped through the codec's tuple-struct constructor
+                # (`[b'A', ..].into_iter().map(Dna)`)
+                for p in paths:
+                    if p.end != "return":
+                        continue
+                    for t in terms.walk(p.ret):
+                        if t[0] == "call" and " as std::iter::Iterator>::map::<" in t[1] and len(t[2]) == 2 and isinstance(t[2][1], tuple) and \
+                                t[2][1][0] == "fn" and (t[2][1][1] == self.ty or t[2][1][1].startswith(self.ty + "::")):
+                            arr = [x for x in terms.walk(t[2][0]) if x[0] == "array"]
+                            if len(arr) == 1:
+                                vname = self.ty.split("::")[-1]
+                                elems = tuple(("agg", self.ty, 0, vname, (x,)) for x in arr[0][1])
                 if elems is not None:
                     for e in elems:
                         if e[0] == "agg" and e[1] == self.ty:
